@@ -446,8 +446,115 @@ def importer_inspects_the_pushed_pawns_row(ctx, F):
                   expected="squares on row %d (and at most the target square's row %d)" % (pawn_row, target_row), found=found[side])
 
 
+def importer_records_iff_capturable(ctx, F):
+    """The importer's recording condition decided by cases (S-eval): the part of the condition that reads the board is folded for
+    side to move x file x content of the two squares beside the pushed pawn; it must hold exactly when a pawn of the side to move
+    stands on one of those squares (row 4 for White to move, row 3 for Black) - the condition Game::push applies (C02.R6).
+    Returns True when the table could be evaluated (the structural rule is then not needed)."""
+    from .common import chess_evalcalls
+    fn = F.fn("chess::Game::new")
+    body = fn["hir"]["body"]
+    symt = hir.Sym(hir.Env(fn["hir"], F), F, through=True)
+    D = discr_map(F)
+    rec = [c for c, _ in hir.calls(body, "GameState::set_en_passant") if hir.sym_int(symt(c["args"][0])) != 8]
+    if len(rec) != 1:
+        return False
+    call = rec[0]
+    guards = hir.guards_of(call, body, symt) or []
+
+    def reads_board(t):
+        return any(x[:1] == ("index",) and "board" in hir.fmt(x[1], 40) or (x[:2] == ("call", "chess::Game::get_position")) for x in hir.subterms(t))
+    bg = [g for g in guards if isinstance(g[1], tuple) and reads_board(g[1])]
+    if not bg:
+        return False
+    cond = hir.guards_term(bg)
+    colterm = symt(call["args"][0])
+    # equations from match guards on the way (`*rank == expected_rank`)
+    eqs = {}
+    for g in guards:
+        if g[0] == "if" and g[2] is True and isinstance(g[1], tuple) and g[1][:2] == ("bin", "=="):
+            for a_, b_ in ((g[1][2], g[1][3]), (g[1][3], g[1][2])):
+                x = a_
+                while x[0] in ("un", "deref") and isinstance(x[-1], tuple):
+                    x = x[-1]
+                if x[0] == "var" and b_[0] != "var":
+                    eqs[x] = b_
+                    eqs[a_] = b_
+    def parsed(t):
+        """a match on the bytes of the field with slice patterns: the text was accepted, so one of the non-failing arms was taken -
+        keep those (their guards decide between them) and read the bound names as free variables"""
+        if not isinstance(t, tuple) or isinstance(t, hir.PK):
+            return t
+        if t[:1] == ("match",) and any(pk == ("PSlice",) or (isinstance(pk, tuple) and pk[:1] == ("PSlice",)) for pk, _, _ in t[2]):
+            arms = [(g, parsed(b)) for pk, g, b in t[2] if not (b[:1] in (("ret",), ("panic",)) or (b[:1] == ("call",) and "format_err" in str(b)))]
+            if not arms:
+                return t
+            out = arms[-1][1]
+            for g, b in reversed(arms[:-1]):
+                out = ("if", parsed(g), b, out) if g is not None else b
+            return out
+        return tuple(parsed(x) if isinstance(x, tuple) else x for x in t)
+    cond, colterm = parsed(hir.subst(cond, eqs)), parsed(hir.subst(colterm, eqs))
+    bases = {x[1] for x in hir.subterms(cond) if x[:1] == ("index",) and "board" in hir.fmt(x[1], 40)}
+
+    def player_valued(t):
+        return t[0] == "match" and any(b[0] == "variant" and str(b[1]).startswith("chess::Player::") for _, _, b in t[2]) and \
+            all((b[0] == "variant" and str(b[1]).startswith("chess::Player::")) or b[0] in ("ret", "call", "panic") for _, _, b in t[2])
+    players = {t for t in hir.subterms(cond) if player_valued(t) or t[:2] == ("var", "current_player")}
+    free = sorted({t for t in hir.subterms(colterm) if t[0] == "var"}, key=str)
+    SOME, NONE = "std::prelude::v1::Some", ("variant", "std::prelude::v1::None")
+    PCE, PT_, PL_ = "chess::piece::Piece", "chess::piece::PieceType::", "chess::Player::"
+
+    def piece(kind, owner):
+        return ("ctor", SOME, (("struct", PCE, (("owner", ("variant", PL_ + owner)), ("piece_type", ("variant", PT_ + kind)))),))
+    bad, n = [], 0
+    for side, prow in (("White", 4), ("Black", 3)):
+        other = "Black" if side == "White" else "White"
+        contents = {"empty": NONE, "own pawn": piece("Pawn", side), "enemy pawn": piece("Pawn", other), "own rook": piece("Rook", side)}
+        for c in (0, 3, 7):
+            a0 = {p_: ("variant", PL_ + side) for p_ in players}
+            # the value of the one free variable of the recorded column (the file byte) that makes the column c
+            if len(free) == 1:
+                sol = [v for v in range(256) if hir.fold(colterm, dict(a0, **{}) | {free[0]: ("lit", v)}, D) == ("lit", c)]
+                if len(sol) != 1:
+                    return False
+                a0[free[0]] = ("lit", sol[0])
+            elif free:
+                return False
+            for ln, lc in contents.items():
+                for rn, rc in contents.items():
+                    a = dict(a0)
+                    board = {}
+                    for idx in range(64):
+                        board[(idx // 8, idx % 8)] = NONE
+                    if c - 1 >= 0:
+                        board[(prow, c - 1)] = lc
+                    if c + 1 <= 7:
+                        board[(prow, c + 1)] = rc
+                    for (r_, c_), v_ in board.items():
+                        for b_ in bases:
+                            a[("index", b_, ("lit", r_ * 8 + c_))] = v_
+                    v = hir.fold(cond, a, D, hir.table_helpers(F), chess_evalcalls(board))
+                    v = hir.fold(v, a, D, hir.table_helpers(F), chess_evalcalls(board))
+                    near = [x for x, cc in ((ln, c - 1), (rn, c + 1)) if 0 <= cc <= 7]
+                    want = "own pawn" in near
+                    n += 1
+                    if v != ("lit", want):
+                        if v[0] != "lit" and not bad:
+                            return False      # not decidable on this shape: leave it to the structural rule
+                        bad.append({"to move": side, "file": c, "left": ln, "right": rn, "recorded": hir.fmt(v, 80), "expected": want})
+    ctx.check("C04.K7", "importer-records-iff-a-pawn-of-the-side-to-move-is-beside-the-pushed-pawn", not bad, fn=fn["path"], file=fn["file"],
+              line=hir.line(call),
+              what="the importer keeps the en-passant file of the text under a condition that differs from the one Game::push applies (a pawn "
+                   "of the side to move beside the pawn that made the double step): the same position then differs, and hashes differently, "
+                   "depending on whether it was played or loaded",
+              expected="recorded <=> own pawn on (row 4 | 3 by side to move, file -/+ 1)", found=bad[:3] or "%d cases" % n)
+    return True
+
+
 def rule_k7(ctx, F):
     n_sites = 0
+    semantic_importer = importer_records_iff_capturable(ctx, F)
     for fn_path in ("chess::Game::push", "chess::Game::new"):
         fn = F.fn(fn_path)
         body = fn["hir"]["body"]
@@ -458,6 +565,19 @@ def rule_k7(ctx, F):
             if hir.sym_int(arg) == 8:
                 continue  # sentinel "no en passant"
             n_sites += 1
+            if fn_path.endswith("::new") and semantic_importer:
+                continue      # decided by cases above
+            if fn_path.endswith("::push"):
+                # decided by cases: C02.R6 (recorded exactly for a double step beside an enemy pawn)
+                from . import p02
+                before, nv = len(ctx.instances), len(ctx.violations)
+                p02.r6(ctx, F, fn)
+                for i in ctx.instances[before:]:
+                    i["rule"] = "C04.K7(" + i["rule"] + ")"
+                for v in ctx.violations[nv:]:
+                    v["rule"] = "C04.K7(" + v["rule"] + ")"
+                    v["key"] = "C04.K7|" + v["key"]
+                continue
             ok, why = neighbour_pawn_guard(call, fn, F)
             ctx.check("C04.K7", "en-passant-recorded-only-if-capturable", ok, fn=fn_path, file=fn["file"],
                       line=hir.line(call),
@@ -466,7 +586,8 @@ def rule_k7(ctx, F):
                       expected="set_en_passant(file) control-dependent on a board read next to the pushed pawn "
                                "compared with PieceType::Pawn", found=why)
     ctx.floor("C04.K7", "non-sentinel set_en_passant sites", n_sites, 2)
-    importer_inspects_the_pushed_pawns_row(ctx, F)
+    if not semantic_importer:
+        importer_inspects_the_pushed_pawns_row(ctx, F)
     # the importer decides once: no later reset of the file it recorded, exactly one state key folded in
     nw = F.fn("chess::Game::new")
     nsym = hir.Sym(hir.Env(nw["hir"], F), F)
